@@ -8,6 +8,8 @@ Decided (necessary structural conditions of the behaviour; the behaviour itself 
   SKLB     which versions carry which header, and that the Havok payload offset is taken from the header that was read
   BONES    every Bone field is copied from the Havok skeleton array of the same meaning at the same index
   HKNAMES  the Havok member / class names the extraction asks for, and which accessor each goes through
+  HKMEMBERS presence bit fields are sized by the full (inherited) member count; member_count() and members() both
+           walk the whole ancestor chain
   HKTABLE  value-type codes, vector widths and tag codes of the tag-file format; TRANSFORM lane split 0-3 / 4-7 / 8-11
   PACKEDINT the tag file's variable-length integers: 6 value bits in the first byte, 7 in each further byte, placed at
            consecutive bit positions (ranges computed from the masks and shifts, not their spelling); sign bit 0,
@@ -260,6 +262,32 @@ def run(ctx):
                     for a in t["args"]:
                         strs |= derive(ix, a).strs
             ctx.ob("HKNAMES", "container-class", strs == {"hkaAnimationContainer"}, f"the root object is looked up by class name {sorted(strs)}; must be hkaAnimationContainer", fb.file, fb.line)
+
+    # ---- HKMEMBERS: the presence bit field of an object / struct array has one bit per member *including inherited
+    # ones*: its width and the member list that is walked against it must count the same members
+    mc = prog.body("havok::object::HavokObjectType::member_count")
+    mm = prog.body("havok::object::HavokObjectType::members")
+    if not mc or not mm:
+        ctx.fail_closed("HKMEMBERS", "HavokObjectType::member_count / members not found")
+    else:
+        def parent_calls(b):
+            return {(t_.get("res") or "").split("::")[-1] for _bi, t_ in b.calls() if (t_.get("res") or "").startswith("havok::object::HavokObjectType::")}
+
+        ctx.ob("HKMEMBERS", "members|whole-chain", "members" in parent_calls(mm), "members() prepends the parent's members() (recursively: every ancestor)", mm.file, mm.line)
+        ctx.ob("HKMEMBERS", "member_count|whole-chain", bool(parent_calls(mc) & {"member_count", "members"}), "member_count() takes the inherited part from " + (str(sorted(parent_calls(mc))) if parent_calls(mc) else "the direct parent's own member list") + "; it must count every ancestor like members() (recursive member_count / members)", mc.file, mc.line, sample=True)
+    n_bf = 0
+    for nm in ("havok::binary_tag_file_reader::HavokBinaryTagFileReader::<'a>::read_object", "havok::binary_tag_file_reader::HavokBinaryTagFileReader::<'a>::read_array"):
+        rb_ = prog.body(nm)
+        if not rb_:
+            continue
+        rix = index_of(rb_)
+        for _bi, t_ in rb_.calls():
+            if (t_.get("res") or "").endswith("::read_bit_field") and len(t_["args"]) >= 2:
+                n_bf += 1
+                d_ = derive(rix, t_["args"][1])
+                src = {c_.split("::")[-1] for c_ in d_.calls} & {"members", "member_count"}
+                ctx.ob("HKMEMBERS", f"bit-field-width|{nm.split('::')[-1]}", bool(src), f"{nm.split('::')[-1]}: the presence bit field is sized by {sorted(src) or sorted(c_.split('::')[-1] for c_ in d_.calls)}; must be the type's full member count", rb_.file, rb_.line)
+    ctx.floor("HKMEMBERS", "presence bit fields read", n_bf, 2)
 
     # ---- HKNAMES
     def member_map(fn, adt, want):
